@@ -410,7 +410,8 @@ def run_case(case: dict, T: float) -> dict:
             key = "+".join(kinds) + "|c"
             if key not in codes:
                 continue
-            if all(k in singles for k in kinds) and codes[key] == "\n\n".join(singles[k] for k in kinds):
+            if (len(set(kinds)) == len(kinds) and all(k in singles for k in kinds)
+                    and codes[key] == "\n\n".join(singles[k] for k in kinds)):
                 joins[key] = list(kinds)
                 gen[key]["toolchain_via"] = "join"
             else:
